@@ -8,7 +8,8 @@
      k_outs   outcome of the n-th invocation of the objective (Ok costs / Transient / Fatal kind)
      k_cons   the constraint function as a table vector -> values (keys compared bit for bit)
      k_tape   the vectors returned by VectorAndNumbers.gen_vector inside Job.evaluate, in order
-   np.round(y, 7) is modelled bit-exactly: rint(y * 1e7) / 1e7 with rint by the 2^52 trick. *)
+   np.round(y, decimals=p) is modelled bit-exactly: rint(y * 10^p) / 10^p (rint(y) for p = 0) with rint by
+   the 2^52 trick; 10^p is exact in binary64 for p <= 22. *)
 From Coq Require Import List ZArith Bool Floats.
 From Artap Require Export Base.Ord Base.FloatInst Model.Job.
 Import ListNotations.
@@ -20,8 +21,14 @@ Definition fvec := list float.
 Definition frint (x : float) : float :=
   let a := abs x in
   if a <? 0x1p+52 then (let r := (a + 0x1p+52) - 0x1p+52 in if get_sign x then - r else r) else x.
-(* numpy: multiply(y, 1e7); rint; true_divide(., 1e7) *)
-Definition fround7 (y : float) : float := frint (y * 0x1.312dp+23) / 0x1.312dp+23.
+(* numpy: decimals = 0: rint; decimals > 0: multiply(y, 10^p); rint; true_divide(., 10^p) *)
+Fixpoint fpow10 (p : nat) : float := match p with O => 1 | S p' => fpow10 p' * 10 end.
+Definition froundp (p : nat) (y : float) : float :=
+  match p with
+  | O => frint y
+  | _ => frint (y * fpow10 p) / fpow10 p
+  end.
+Definition fround7 (y : float) : float := froundp 7 y.
 (* Python int sign (1 / -1) times np.float64 *)
 Definition fsmul (maximise : bool) (x : float) : float := (if maximise then -1 else 1) * x.
 
@@ -41,8 +48,8 @@ Record job_case := {
   k_ops : list op }.
 
 (* literal helper for the generated files *)
-Definition mk (v c : fvec) (s : option (fvec * bool)) (st : dstate) (f : bool) : ind float :=
-  {| ivec := v; icosts := c; isigned := s; istate := st; ifeas := f |}.
+Definition mk (v c : fvec) (s : option (fvec * bool)) (st : dstate) (f : bool) (p : nat) : ind float :=
+  {| ivec := v; icosts := c; isigned := s; istate := st; ifeas := f; iprec := p |}.
 
 Fixpoint list_eqb {A : Type} (eqb : A -> A -> bool) (a b : list A) : bool :=
   match a, b with
@@ -69,9 +76,9 @@ Definition jstate := state float.
 Definition run_op (e : env float) (st : jstate) (o : op) : jstate * opres :=
   match o with
   | OpMk i => (alloc st i, RUnit)
-  | OpEval ids => let '(st', r) := evaluate_serial fltb 0 fround7 fsmul e st ids in (st', RRes r)
-  | OpScalar x => let '(st', s) := evaluate_scalar fltb 0 fround7 fsmul e st x in (st', RScal s)
-  | OpSweep vs => let '(st', r) := sweep fltb 0 fround7 fsmul e st vs in (st', RRes r)
+  | OpEval ids => let '(st', r) := evaluate_serial fltb 0 froundp fsmul e st ids in (st', RRes r)
+  | OpScalar x => let '(st', s) := evaluate_scalar fltb 0 froundp fsmul e st x in (st', RScal s)
+  | OpSweep vs => let '(st', r) := sweep fltb 0 froundp fsmul e st vs in (st', RRes r)
   end.
 
 Fixpoint run_ops (e : env float) (st : jstate) (ops : list op) : jstate * list opres :=
@@ -101,7 +108,7 @@ Definition opt_eqb {A : Type} (eqb : A -> A -> bool) (a b : option A) : bool :=
 Definition signed_eqb (a b : fvec * bool) : bool := fvec_eqb (fst a) (fst b) && Bool.eqb (snd a) (snd b).
 Definition ind_eqb (a b : ind float) : bool :=
   fvec_eqb (ivec a) (ivec b) && fvec_eqb (icosts a) (icosts b) && opt_eqb signed_eqb (isigned a) (isigned b) &&
-  dstate_eqb (istate a) (istate b) && Bool.eqb (ifeas a) (ifeas b).
+  dstate_eqb (istate a) (istate b) && Bool.eqb (ifeas a) (ifeas b) && Nat.eqb (iprec a) (iprec b).
 Definition result_eqb (a b : result) : bool :=
   match a, b with
   | Done, Done | Raised5, Raised5 => true
